@@ -23,6 +23,7 @@ META = {
     'assumptions': ['temperature oracle: K = C + 273.15, F = C * 9/5 + 32 (defining fixed points of the property text)'],
 }
 META['bounds'].append("text constructors Quantity('7 ta', unit) / T('7 tc', unit) for tabulated, reverse-only and missing pairs")
+META['bounds'].append('identity table entries (factor 1, offset 0) as int and Decimal')
 
 TEMP = ['°C', '°F', 'K']
 
